@@ -35,7 +35,9 @@ class Skip(Exception):
 
 
 class B:
-    def __init__(self, rng, env, pclass):
+    def __init__(self, rng, env, pclass, pb=None):
+        """pb: an existing problem of class `pclass` to adopt (history cases plant into / mutate a problem that was built
+        elsewhere, e.g. by the C01 grammar); None = start from a bare problem."""
         self.rng = rng
         self.env = env
         self.em = env.expression_manager
@@ -46,7 +48,13 @@ class B:
         self.n = 0
         self.owner = {}  # ma: fluent -> agent | None (environment)
         self.agents_added = False
-        if pclass == "prob":
+        self.shadows = []  # ma: (name space, fluent) declared by shadow_fluents
+        self.rich_shadows = False
+        self.defer_second = False  # ma: finish() leaves the second agent out (history cases add it after an evaluation)
+        if pb is not None:
+            assert pclass != "ma"
+            self.pb = pb
+        elif pclass == "prob":
             self.pb = Problem("p", env)
         elif pclass == "htn":
             from unified_planning.model.htn import HierarchicalProblem
@@ -704,6 +712,193 @@ class B:
         else:
             self.plant_misc(where, feature)
 
+    # ---- mutations of an already evaluated problem (history cases) ---------------------------------------------------
+    def objects_of(self, t):
+        out = []
+        for o in self.pb.all_objects:
+            x = o.type
+            while x is not None:
+                if x == t:
+                    out.append(o)
+                    break
+                x = x.father
+        return out
+
+    def ground_args(self, fl):
+        """all argument tuples of fl (python values / Objects), or None when a parameter type is infinite."""
+        import itertools
+
+        doms = []
+        for p in fl.signature:
+            t = p.type
+            if t.is_user_type():
+                doms.append(self.objects_of(t))
+            elif t.is_bool_type():
+                doms.append([True, False])
+            elif t.is_int_type() and t.lower_bound is not None and t.upper_bound is not None:
+                doms.append(list(range(t.lower_bound, t.upper_bound + 1)))
+            else:
+                return None
+        return list(itertools.product(*doms))
+
+    def value_for(self, t):
+        r = self.rng
+        if t.is_bool_type():
+            return r.random() < 0.5
+        if t.is_int_type() or t.is_real_type():
+            lo, hi = t.lower_bound, t.upper_bound
+            return lo if lo is not None else (hi if hi is not None else r.choice([0, 1, 2]))
+        objs = self.objects_of(t)
+        return r.choice(objs) if objs else None
+
+    def explicit_fluent(self):
+        """a fluent *without default* whose ground instances are all initialised explicitly (classes with one initial state)."""
+        tm, r, pb = self.tm, self.rng, self.pb
+        if self.pc == "ma":
+            raise Skip("initial values of multi-agent problems are not judged")
+        t = self.T(hier=r.random() < 0.25)
+        for k in range(r.choice([1, 2, 2])):
+            self.obj(t, k)
+        sig = OrderedDict(x=t)
+        x = r.random()
+        if x < 0.15:
+            sig["y"] = tm.BoolType()
+        elif x < 0.3:
+            sig["y"] = self.T()
+        elif x < 0.4:
+            sig["y"] = tm.IntType(0, 1)
+        ft = r.choice([tm.BoolType(), tm.BoolType(), tm.IntType(), tm.RealType(), tm.IntType(0, 6), self.T()])
+        fl = Fluent(self.fresh("e"), ft, sig, self.env)
+        pb.add_fluent(fl)
+        n = 0
+        for args in self.ground_args(fl):
+            v = self.value_for(ft)
+            if v is not None:
+                pb.set_initial_value(fl(*args), v)
+                n += 1
+        self.log.append(f"fluent {fl.name} without default, {n} ground instances initialised explicitly")
+        return fl
+
+    def add_new_object(self, init_new=False):
+        """add_object of a type the problem already uses; the new state variables get no initial value unless init_new."""
+        r, pb = self.rng, self.pb
+        types = sorted(pb.user_types, key=lambda t: t.name)
+        t = r.choice(types) if types else self.T()
+        o = Object(self.fresh("no"), t, self.env)
+        pb.add_object(o)
+        n = 0
+        if init_new and self.pc != "ma":
+            defaults = pb.fluents_defaults
+            have = set(pb.explicit_initial_values)
+            for fl in pb.fluents:
+                if fl in defaults:
+                    continue
+                for args in self.ground_args(fl) or ():
+                    if any(a is o for a in args):
+                        fe = fl(*args)
+                        v = self.value_for(fl.type)
+                        if v is not None and fe not in have:
+                            pb.set_initial_value(fe, v)
+                            n += 1
+        self.log.append(f"add_object {o.name}: {t.name}" + (f", {n} new state variables initialised" if init_new else ""))
+        return "add-object-initialised" if init_new else "add-object"
+
+    def set_some_initial_value(self):
+        """set_initial_value of one ground fluent (preferably one without value)."""
+        r, pb = self.rng, self.pb
+        if self.pc == "ma":
+            raise Skip("initial values of multi-agent problems are not judged")
+        have = set(pb.explicit_initial_values)
+        cands, other = [], []
+        for fl in pb.fluents:
+            for args in (self.ground_args(fl) or ())[:12]:
+                fe = fl(*args)
+                (other if fe in have or fl in pb.fluents_defaults else cands).append(fe)
+        pool = cands if cands and r.random() < 0.8 else (other or cands)
+        if not pool:
+            raise Skip("no ground fluent")
+        fe = r.choice(pool)
+        v = self.value_for(fe.fluent().type)
+        if v is None:
+            raise Skip("no object of the fluent's type")
+        pb.set_initial_value(fe, v)
+        self.log.append(f"set_initial_value {fe} := {v}")
+        return "set-initial-value"
+
+    def add_second_agent(self):
+        """ma: add the second agent (with a fluent of its own and a same-named fluent of another type) after an evaluation."""
+        r = self.rng
+        if self.pc != "ma" or any(a.name == self.ag2.name for a in self.pb.agents):
+            raise Skip("second agent already added")
+        t, sig, d = self.shadow_type(True)
+        g = Fluent(self.fresh("k"), t, sig, self.env)
+        self.ag2.add_fluent(g, **({} if d is None else {"default_initial_value": d}))
+        self.owner[g] = self.ag2
+        sh = self.shadow_fluents(rich=True, k=1)
+        self.pb.add_agent(self.ag2)
+        self.log.append(f"add_agent A1 with {g.name}: {t}" + ("; " + "; ".join(sh) if sh else ""))
+        return "add-agent"
+
+    # ---- multi-agent name spaces -------------------------------------------------------------------
+    def shadow_type(self, rich):
+        """(type, signature, default) of a same-named fluent declared in another name space."""
+        tm, r = self.tm, self.rng
+        if not rich:
+            return tm.BoolType(), OrderedDict(), False
+        t, d = r.choice(
+            [
+                (tm.BoolType(), False),
+                (tm.IntType(), 0),
+                (tm.RealType(), 0),
+                (tm.IntType(0, 4), 1),
+                (tm.RealType(0, None), 1),
+                (self.T(), None),
+                (self.T(hier=True), None),
+            ]
+        )
+        sig = OrderedDict()
+        x = r.random()
+        if x < 0.15:
+            sig["x"] = tm.BoolType()
+        elif x < 0.3:
+            sig["x"] = tm.IntType(0, 2)
+        elif x < 0.45:
+            sig["x"] = self.T(hier=r.random() < 0.4)
+        return t, sig, d
+
+    def shadow_fluents(self, rich, k=None):
+        """ma: fluents are name-spaced per agent: declare, in the *other* agent, fluents with the names of already declared
+        agent fluents but a different type / signature.  (Environment fluents are left alone: Agent.add_fluent rejects the
+        name of an environment fluent.)  Returns what was done."""
+        r = self.rng
+        done = []
+        spaces = [("A0", self.ag), ("A1", self.ag2)]
+        decl = [(sn, f) for sn, sp in spaces for f in sp.fluents]
+        if not decl:
+            return done
+        r.shuffle(decl)
+        k = k or r.choice([1, 1, 2, 3])
+        for sn, f in decl:
+            if len(done) >= k:
+                break
+            cands = [(n, sp) for n, sp in spaces if n != sn and not any(g.name == f.name for g in sp.fluents)]
+            if not cands:
+                continue
+            tn, sp = r.choice(cands)
+            for _ in range(4):
+                t, sig, d = self.shadow_type(rich)
+                if t != f.type or [p.type for p in f.signature] != list(sig.values()):
+                    break
+            else:
+                continue
+            g = Fluent(f.name, t, sig, self.env)
+            kw = {} if d is None else {"default_initial_value": d}
+            (sp.add_public_fluent if r.random() < 0.5 else sp.add_private_fluent)(g, **kw)
+            self.owner[g] = sp
+            self.shadows.append((tn, g))
+            done.append(f"{tn}.{f.name}: {t}{list(sig.values()) or ''} shadows {sn}.{f.name}: {f.type}")
+        return done
+
     def finish(self):
         """minimal filling that every class needs to be a usable problem."""
         r = self.rng
@@ -712,14 +907,30 @@ class B:
                 a = self.new_inst()
                 a.add_effect(self.fx(self.bfl(0)), True)
                 self.ag.add_action(a)
-            self.pb.add_agent(self.ag)
-            if r.random() < 0.5:
-                a = InstantaneousAction("other", OrderedDict(), self.env)
+            second = r.random() < 0.5 and not self.defer_second
+            if second:
                 g = Fluent("g_other", self.tm.BoolType(), OrderedDict(), self.env)
                 self.ag2.add_fluent(g, default_initial_value=False)
-                a.add_effect(self.em.FluentExp(g), True)
-                self.ag2.add_action(a)
-                self.pb.add_agent(self.ag2)
+            # same-named fluents of different types in different name spaces; a bare (single-plant) problem only gets
+            # Boolean 0-ary ones, which contribute no feature of their own
+            if r.random() < 0.45 and not self.defer_second:
+                sh = self.shadow_fluents(rich=self.rich_shadows and r.random() < 0.6)
+                if sh:
+                    self.log.append("same-named fluents: " + "; ".join(sh))
+            if second or self.ag2.fluents:
+                a = InstantaneousAction("other", OrderedDict(), self.env)
+                for g in self.ag2.fluents:
+                    if g.type.is_bool_type() and not g.signature:
+                        a.add_effect(self.em.FluentExp(g), True)
+                if a.effects:
+                    self.ag2.add_action(a)
+            # both agent orders
+            agents = [self.ag] + ([self.ag2] if (second or self.ag2.fluents) else [])
+            if len(agents) == 2 and r.random() < 0.5:
+                agents.reverse()
+            for ag in agents:
+                self.pb.add_agent(ag)
+            self.log.append("agents added in order " + ",".join(ag.name for ag in agents))
         elif self.pc == "htn":
             if r.random() < 0.5:
                 t = self.pb.add_task(self.fresh("task"))
@@ -735,6 +946,7 @@ class B:
 def build(rng, env, specs):
     """specs: non-empty list of plants for one problem class. Returns (problem, log, skipped)."""
     b = B(rng, env, specs[0][0])
+    b.rich_shadows = len(specs) > 1
     skipped = []
     for i, s in enumerate(specs):
         try:
